@@ -344,9 +344,6 @@ class Archive(object):
                             "'{!s}' is being used as a name-tag".format(n_im)
                         )
                         
-                    self._untagged_real[n_re] = obj.real
-                    self._untagged_real[n_im] = obj.imag
-                    
                     # The UncertainReal components of an intermediate UncertainComplex 
                     # need to be recorded individually.
                     if not obj.is_elementary:
@@ -361,6 +358,9 @@ class Archive(object):
                         self._uid_to_intermediate[uid_r] = obj.real
                         self._uid_to_intermediate[uid_i] = obj.imag
                      
+                    # Nothing is recorded until all the checks have passed
+                    self._untagged_real[n_re] = obj.real
+                    self._untagged_real[n_im] = obj.imag
                     self._tagged_complex[key] = obj
                     
                 else:
